@@ -116,15 +116,15 @@ func ruleMirror(p *Program, r *Result) {
 			f, ok := optionSetsField(setter)
 			if !ok {
 				badOpt = fmt.Sprintf("%s is not a plain 'store the argument into one header field' option (it ignores, clamps or conditions its argument)", fnKey(setter))
-				break
+				continue
 			}
 			got[f] = o[1]
 		}
 		if badOpt != "" {
 			r.bad("R-MIRROR", key+":options-are-plain-setters", p.Pos(ctor.Pos()), "%s: the reply header can differ from what Reply computed (e.g. a sequence number of 256 silently becoming the default 1)", badOpt)
-			continue
+		} else {
+			r.ok("R-MIRROR", key+":options-are-plain-setters", p.Pos(ctor.Pos()), true, "each of the %d header options used by Reply stores its argument, unconditionally, into the header field of the same name", len(opts))
 		}
-		r.ok("R-MIRROR", key+":options-are-plain-setters", p.Pos(ctor.Pos()), true, "each of the %d header options used by Reply stores its argument, unconditionally, into the header field of the same name", len(opts))
 		for _, f := range []string{"Version", "Type", "Flags", "SessionID"} {
 			v, ok := got[f]
 			r.cond(ok && isStored(v, f), "R-MIRROR", key+":mirror:"+f, p.Pos(ctor.Pos()),
